@@ -47,11 +47,11 @@ where
     const IS_ZERO_COPY: bool = false;
     const ZERO_COPY_MISMATCH: bool = false;
     fn _serialize_inner(&self, backend: &mut impl WriteWithNames) -> Result<()> {
-        // SAFETY: the fake vector we create is never used, and we forget it immediately
-        // after writing it to the backend.
-        let fake = unsafe { Vec::from_raw_parts(self.as_ptr() as *mut T, self.len(), self.len()) };
-        ser::SerializeInner::_serialize_inner(&fake, backend)?;
-        core::mem::forget(fake);
-        Ok(())
+        // SAFETY: the fake vector we create is only read, and it is never dropped
+        // (neither on success, nor on error, nor on unwinding).
+        let fake = core::mem::ManuallyDrop::new(unsafe {
+            Vec::from_raw_parts(self.as_ptr() as *mut T, self.len(), self.len())
+        });
+        ser::SerializeInner::_serialize_inner(&*fake, backend)
     }
 }
